@@ -501,6 +501,10 @@ class Server:
                 resp = ("HTTP/1.1 101 Switching Protocols\r\nUpgrade: websocket\r\nConnection: Upgrade\r\n"
                         "Sec-WebSocket-Accept: %s\r\n\r\n" % accept_for(key)).encode()
             self.shaken = True
+            if isinstance(resp, tuple):  # (response, "more-http"): another HTTP request follows on this connection (proxy tunnel)
+                resp = resp[0]
+                self.shaken = False
+                self.inbuf = b""
             if resp is not None:
                 # the handshake response is read byte-wise with recv(1); deliver it at once
                 if self.sock.tls:
@@ -508,7 +512,7 @@ class Server:
                 else:
                     self.sock.buf = self.sock.buf + resp if len(self.sock.buf) else resp
             t = self.k.now
-            for delay, item in self.spec.get("script", []):
+            for delay, item in (self.spec.get("script", []) if self.shaken else []):
                 t = t + delay
                 self.k.at(t, lambda item=item: self.deliver(item))
 
